@@ -88,6 +88,7 @@ type storageWorld struct {
 	lastNew int
 	stepNo  int
 	baseSeam bool
+	ctl      *CallbackCtl
 }
 
 func (sw *storageWorld) newStorage() {
@@ -97,7 +98,10 @@ func (sw *storageWorld) newStorage() {
 	} else {
 		base = atree.NewLedgerBaseStorage(sw.ledger)
 	}
-	sw.st = atree.NewPersistentSlabStorage(base, encMode, decMode, MakeStorableDecoder(nil), MakeTypeInfoDecoder(nil))
+	if sw.ctl == nil {
+		sw.ctl = NewCallbackCtl()
+	}
+	sw.st = atree.NewPersistentSlabStorage(base, encMode, decMode, MakeStorableDecoder(sw.ctl), MakeTypeInfoDecoder(nil))
 }
 
 func (sw *storageWorld) slabOf(id RegID, v int) (atree.Slab, error) {
@@ -251,6 +255,27 @@ func (sw *storageWorld) exec(st *Step) *Violation {
 				}
 			}
 			// fall through to an ordinary read: it must see the unchanged view
+		}
+		if st.Fault != nil && st.Fault.DecodeAt > 0 {
+			// the caller's element decoder fails while the slab is being decoded (if it is decoded at all): an error,
+			// and nothing remembered about the slab
+			sw.ctl.Reset()
+			sw.ctl.FailAt["decode"] = st.Fault.DecodeAt
+			fired0 := sw.ctl.Fired["decode"]
+			var err error
+			if st.Keep {
+				_, _, err = sw.st.Retrieve(id.SlabID())
+			} else {
+				_, _, err = sw.st.RetrieveIgnoringDeltas(id.SlabID(), st.N%2 == 0)
+			}
+			fired := sw.ctl.Fired["decode"] > fired0
+			sw.ctl.Reset()
+			if fired {
+				sw.stats.Inc("fault.callback.decode")
+				if err == nil {
+					return sw.viol("ov.error", "a read of %s whose element decoder failed returned no error", id)
+				}
+			}
 		}
 		slab, found, err := sw.st.Retrieve(id.SlabID())
 		if err != nil {
@@ -437,6 +462,9 @@ func genStorageStep(r *Rng, nids int) Step {
 	st := Step{Op: ops[r.Pick(w)], C: r.Intn(nids), N: r.Intn(64), Keep: r.Chance(0.5), Workers: r.Intn(4)}
 	if st.Op == "s.retrieve" && r.Chance(0.2) {
 		st.Fault = &FaultSpec{ReadAt: 1}
+		if r.Chance(0.4) {
+			st.Fault = &FaultSpec{DecodeAt: 1}
+		}
 	}
 	if st.Op == "s.commit" {
 		if r.Chance(0.35) {
